@@ -16,7 +16,7 @@ import (
 
 func init() { families["own"] = runOwn }
 
-var ownPaths = []string{"a", "a/b", "a/b/c", "a/b/c/d", "a/x", "b", "b/c", "x/b/y"}
+var ownPaths = []string{"a", "a/b", "a/b/c", "a/b/c/d", "a/x", "b", "b/c", "x/b/y", "ab/c", "a/bc"}
 
 type ownArt struct {
 	path         string
@@ -184,7 +184,7 @@ func runOwn(o *opts) {
 	}
 	s.Cases = nOwn + len(vcases)
 	s.Nontrivial = len(distinct)
-	s.Rule = "AddStage sequences of single-artifact stages over the universe {a, a/b, a/b/c, a/b/c/d, a/x, b, b/c, x/b/y} x {file, dir, non-recursive dir} (pairs exhaustive; triples sampled in quick, exhaustive in thorough), index written and reloaded; Validate on sampled multi-artifact stages incl. hostile paths; non-trivial = some add rejected, or a Validate case; distinct by sequence"
+	s.Rule = "AddStage sequences of single-artifact stages over the universe {a, a/b, a/b/c, a/b/c/d, a/x, b, b/c, x/b/y, ab/c, a/bc} x {file, dir, non-recursive dir} (pairs exhaustive; triples sampled in quick, exhaustive in thorough), index written and reloaded; Validate on sampled multi-artifact stages incl. hostile paths; non-trivial = some add rejected, or a Validate case; distinct by sequence"
 	s.Samples = append(s.Samples, s.CaseIndex["7"], s.CaseIndex[fmt.Sprint(nOwn+3)])
 	imp := "From DudV Require Import Base.Bytes Model.Fs Model.Cache Model.Stage Corr.RunLib."
 	writeShards(o.out, "own", imp, "own_case", "run_own", cases, 400, s)
